@@ -537,6 +537,15 @@ func checkTopText(cfg towerPkg) {
 		"precomputeExpTableChunk": {"func(w ELEM, power uint64, table []ELEM)", "{ if len(table) > 0 { table[0].Exp(w, new(big.Int).SetUint64(power)) for i := 1; i < len(table); i++ { table[i].Mul(&table[i-1], &w) } } }"},
 		"buildTwiddles": {"func(t [][]ELEM, omega ELEM, nbStages uint64)", "{ if nbStages == 0 { return } if len(t) != int(nbStages) { panic(\"invalid twiddle table\") } t[0] = make([]ELEM, 1+(1<<(nbStages-1))) BuildExpTable(omega, t[0]) for i := uint64(1); i < nbStages; i++ { t[i] = make([]ELEM, 1+(1<<(nbStages-i-1))) k := 0 for j := 0; j < len(t[i]); j++ { t[i][j] = t[0][k] k += 1 << i } } }"},
 	})
+	// bitreverse.go: BitReverse reaches bitReverseNaive directly or through bitReverseCobra
+	path = filepath.Join(repo, cfg.dir, "bitreverse.go")
+	br := funcTexts(path, true)
+	const brSig = "func(v []ELEM)"
+	brA := "{ n := uint64(len(v)) if bits.OnesCount64(n) != 1 { panic(\"len(a) must be a power of 2\") } if runtime.GOARCH == \"arm64\" { bitReverseNaive(v) } else { bitReverseCobra(v) } }"
+	brB := "{ n := uint64(len(v)) if bits.OnesCount64(n) != 1 { panic(\"len(a) must be a power of 2\") } bitReverseNaive(v) }"
+	if g, ok := br["BitReverse"]; !ok || g[0] != sub(brSig) || (g[1] != brA && g[1] != brB) || (g[1] == brA) != (br["bitReverseCobra"][1] != "") {
+		die("%s: the text of BitReverse changed; slpffttop.go assumes that it calls bitReverseNaive or bitReverseCobra on a power-of-two length:\n  %s\nfound\n  %s", path, brA, g[1])
+	}
 	// options.go
 	path = filepath.Join(repo, cfg.dir, "options.go")
 	check(path, funcTexts(path, true), map[string]want{
@@ -633,6 +642,35 @@ func (p *pkgCtx) runTop(label string, ps *extSummary, want map[string]bool, all,
 					}
 				}
 			}
+		}
+	}
+	// BitReverse on 2..32 elements: bitReverseNaive (reached on every architecture below 2^21 elements) and, where it exists,
+	// the dispatcher bitReverseCobra (its `switch len(v)` is decided at translation time: default branch, bitReverseNaive)
+	for _, key := range []string{"bitReverseNaive", "bitReverseCobra"} {
+		f := p.funcs[key]
+		if f == nil {
+			if key == "bitReverseNaive" {
+				ps.Untranslated[key] = "not found"
+			}
+			continue
+		}
+		for _, n := range topSizes {
+			sp := newSpec()
+			for i, q := range f.pos {
+				if q.slice {
+					sp.arrs[i] = p.arrType(n, q.t)
+				}
+			}
+			v := p.translateSpec(f, identityPat(f), sp)
+			if v.err != "" {
+				ps.Untranslated[v.name] = v.err
+				if want[label+" "+v.name] {
+					*failures = append(*failures, fmt.Sprintf("%s %s: %s", label, v.name, v.err))
+				}
+				continue
+			}
+			ps.Translated = append(ps.Translated, v.name)
+			*all = append(*all, label+" "+v.name)
 		}
 	}
 	if len(p.arrays) != nArr || len(p.structs) != nStruct {
